@@ -781,7 +781,6 @@ func (c *Ctx) ruleRetainedWildcardParent(id string) {
 	ru.Check(bad == "" && n > 0, "'#' arm of "+c.fname(match), c.whereF(match), fmt.Sprintf("%d path(s) under '#', each enumerates the subtree rooted at the current node", n), bad+map[bool]string{true: "", false: "no path decides token == '#'"}[n > 0 || bad != ""])
 }
 
-
 // isWildcardTest: a (dis)equality between something and the multi-level wildcard constant "#".
 func isWildcardTest(bo *ssa.BinOp) bool {
 	if bo.Op != token.EQL && bo.Op != token.NEQ {
